@@ -785,6 +785,8 @@ package genetics
 //@   own_writes Organism.*, Mem[*Organism]
 //@   ensures [count] result1 == nil ==> len(result0) == (old(s.ExpectedOffspring) > 0 ? old(s.ExpectedOffspring) : 0)
 //@   ensures [newOrganisms] result1 == nil ==> (forall k :: 0 <= k && k < len(result0) ==> result0[k] != nil && fresh(result0[k]) && result0[k].Genotype != nil && fresh(result0[k].Genotype))
+//@   ensures [oldListsKept] forall b :: wasAllocated(b) ==> Mem[*Organism][b] == old(Mem[*Organism][b])
+//@   ensures [genotypesKept] forall o *Organism :: wasAllocated(o) ==> o.Genotype == old(o.Genotype)
 //@   ensures [championKept] result1 == nil && old(s.ExpectedOffspring) > 5 ==> 0 <= gCloneAt && gCloneAt < len(result0) && result0[gCloneAt].Genotype == gCloneGenome && gCloneGenome != 0
 //@   loop 1:
 //@     invariant [count] 0 <= count && (count <= s.ExpectedOffspring || (s.ExpectedOffspring <= 0 && count == 0)) && len(babies) == count && fresh(babies)
@@ -792,11 +794,15 @@ package genetics
 //@     invariant [orgs] forall i :: 0 <= i && i < len(s.Organisms) ==> s.Organisms[i] != nil && s.Organisms[i].Genotype != nil && !fresh(s.Organisms[i])
 //@     invariant [babies] forall k :: 0 <= k && k < len(babies) ==> babies[k] != nil && fresh(babies[k]) && babies[k].Genotype != nil && fresh(babies[k].Genotype)
 //@     invariant [superChamp] 0 <= theChamp.superChampOffspring && theChamp.superChampOffspring == (old(s.Organisms[0].superChampOffspring) > count ? old(s.Organisms[0].superChampOffspring) - count : 0)
+//@     invariant [oldListsKept] forall b :: wasAllocated(b) ==> Mem[*Organism][b] == old(Mem[*Organism][b])
+//@     invariant [genotypesKept] forall o *Organism :: wasAllocated(o) ==> o.Genotype == old(o.Genotype)
 //@     invariant [cloneAlloc] gCloneGenome == 0 || allocated(gCloneGenome)
 //@     invariant [clone] gCloneAt >= 0 ==> gCloneAt < len(babies) && babies[gCloneAt].Genotype == gCloneGenome && gCloneGenome != 0 && allocated(gCloneGenome)
 //@     invariant [cloneDone] (champCloneDone ==> gCloneAt >= 0) && (old(s.Organisms[0].superChampOffspring) > 0 && count >= old(s.Organisms[0].superChampOffspring) ==> gCloneAt >= 0) && (old(s.Organisms[0].superChampOffspring) == 0 && s.ExpectedOffspring > 5 && count >= 1 ==> gCloneAt >= 0)
 //@   loop 2:
 //@     invariant 0 <= giveup
+//@     invariant [oldListsKept] forall b :: wasAllocated(b) ==> Mem[*Organism][b] == old(Mem[*Organism][b])
+//@     invariant [genotypesKept] forall o *Organism :: wasAllocated(o) ==> o.Genotype == old(o.Genotype)
 
 // ---- C09: the fitness every organism enters the apportionment with ------------------------------------
 // adjF: stagnation penalty, youth boost, clamp of negative values, sharing by the species size -- in this order.
@@ -1128,3 +1134,20 @@ package genetics
 //@     invariant [startNodes] forall n *network.NNode :: wasAllocated(n) ==> n.Id == old(n.Id) && n.NeuronType == old(n.NeuronType) && n.ActivationType == old(n.ActivationType)
 //@     invariant [startLists] sameSlice(g.Genes, old(g.Genes)) && unchanged(g.Genes) && sameSlice(g.Nodes, old(g.Nodes)) && unchanged(g.Nodes)
 //@     invariant [topology] forall k :: old(len(p.Organisms)) <= k && k < len(p.Organisms) ==> p.Organisms[k] != nil && fresh(p.Organisms[k]) && fresh(p.Organisms[k].Genotype) && p.Organisms[k].Genotype.Id == k - old(len(p.Organisms)) && sameTopology(p.Organisms[k].Genotype, g)
+
+// ---- C02: the sequential reproduction cycle -----------------------------------------------------------------
+// Exactly PopSize organisms are handed to speciation, every one of them (and its genome) allocated during this cycle -- none belonged to the
+// previous generation --, collected from the species in list order; and the best species is recorded as having reproduced when it is listed.
+//@ func (*SequentialPopulationEpochExecutor).reproduce
+//@   props C02
+//@   mode nosafety
+//@   assume_pre reproduce, speciate
+//@   requires s != nil && p != nil && neat.ErrNEATOptionsNotFound != nil
+//@   assert [size] len(arg2) == opts.PopSize @ before 1 speciate
+//@   assert [newGeneration] forall k :: 0 <= k && k < len(arg2) ==> arg2[k] != nil && fresh(arg2[k]) && arg2[k].Genotype != nil && fresh(arg2[k].Genotype) @ before 1 speciate
+//@   assert [bestSeen] (exists i :: 0 <= i && i < old(len(p.Species)) && old(p.Species[i]).Id == s.bestSpeciesId) ==> s.bestSpeciesReproduced @ before 1 speciate
+//@   loop 1:
+//@     invariant -1 <= #idx && opts != nil && fresh(babies)
+//@     invariant [speciesKept] sameSlice(p.Species, old(p.Species)) && unchanged(p.Species) && (forall x *Species :: wasAllocated(x) ==> x.Id == old(x.Id)) && s.bestSpeciesId == old(s.bestSpeciesId)
+//@     invariant [newGeneration] forall k :: 0 <= k && k < len(babies) ==> babies[k] != nil && fresh(babies[k]) && babies[k].Genotype != nil && fresh(babies[k].Genotype)
+//@     invariant [bestSeen] (exists i :: 0 <= i && i <= #idx && p.Species[i].Id == s.bestSpeciesId) ==> s.bestSpeciesReproduced
